@@ -1215,6 +1215,8 @@ def gen_ru_cases(rng, exes, quick, cases):
                 nrep = reps if K <= 8 else max(1, reps // 3)
                 if tag == "same":
                     nrep = max(nrep, 4)          # deterministic classes below, whatever the seed
+                if sk == "shift":
+                    nrep = max(nrep, 4)          # two deterministic classes (a carry between the halves at every level) + random
                 for rep in range(nrep):
                     x = None
                     if sk == "bit":
@@ -1230,6 +1232,13 @@ def gen_ru_cases(rng, exes, quick, cases):
                     if tag == "same" and rep < 4:
                         x = 2 if rep < 2 else rng.choice([3, 10, 97, (1 << 32) + 1])        # b == 2 takes its own branch (right_shift_1)
                     vals = class_values(rng, n, dests, reads, idx, lambda k: ru_value(rng, K, small=(tag == "exp" and k == 2)), lambda k: ru_value(rng, K))
+                    if sk == "shift" and rep < 2:
+                        # a shift by less than half the width at some recursion level, limbs whose top bits differ from the bits
+                        # that a wrongly re-read (already shifted) low half would supply: every limb 0xF000000000000001 / 0x8000..03
+                        x = [4, 61][rep] if rep == 0 or K < 8 else (1 << (K - 1)) - 3
+                        limb = [0xF000000000000001, 0x8000000000000003][rep]
+                        pat_v = sum(limb << (64 * j) for j in range(1 << (K - 6)))
+                        vals = [pat_v if k in reads else v for k, v in enumerate(vals)]
                     if tag == "odd1" or tag == "same" and rep < 2:
                         vals = [v | 1 if k in reads else v for k, v in enumerate(vals)]     # (b == 2: an odd dividend, remainder 1)
                     if op == "gcd" and rep % 2 == 1:
